@@ -13,6 +13,7 @@ import OFV.Proofs.C09Parse
 import OFV.Proofs.C09Inter
 import OFV.Proofs.C09Bk3
 import OFV.Proofs.C09IntMul
+import OFV.Proofs.C09Addr
 
 namespace OFV.C09
 open OFV.Model.C09 OFV.Spec.C09
@@ -267,6 +268,13 @@ theorem interleaved_code_order (h r : Nat) (hr : r < 2 * h) :
     (interleavedMat (2 * h)).getD r [] = (List.range (2 * h)).map fun c => if sigma h r = c then 1 else 0 :=
   interleaved_row h r hr
 
+/-- `weight_one_binary_addressing_code(e)` decodes what it encodes on all `2^e` occupation
+vectors of Hamming weight one (`unitVec (2^e) a`), for every exponent `e`: the decoder component
+`j` is the product of the factors `w_i + 1 + bit_i(j)`, i.e. the indicator of the address `j`. -/
+theorem weight_one_binary_addressing_valid (e : Nat) (c : Code)
+    (hc : weightOneBinaryAddressingCode e = .ok c) (a : Nat) (ha : a < 2 ^ e) :
+    ValidOn c (unitVec (2 ^ e) a) := w1ba_valid' e c hc a ha
+
 /-! ## the literal segment codes (tables re-extracted from the source on every run) -/
 
 instance (c : Code) (v : List Nat) : Decidable (ValidOn c v) := by unfold ValidOn; infer_instance
@@ -293,15 +301,12 @@ theorem weight_two_segment_code_valid_partial :
        [1,1,0,0,0], [1,0,1,0,0], [1,0,0,1,0], [1,0,0,0,1], [0,1,1,0,0], [0,1,0,1,0], [0,1,0,0,1],
        [0,0,1,1,0], [0,0,1,0,1]] = true := by decide
 
-/-- test (finite computation): `weight_one_binary_addressing_code(2)` on its 4 weight-one vectors. -/
-theorem test_w1ba_valid_small :
-    validAll (weightOneBinaryAddressingCode 2) [[1,0,0,0], [0,1,0,0], [0,0,1,0], [0,0,0,1]] = true := by decide
-
 example : (jordanWignerCode 3).toBool = true ∧ (bravyiKitaevCode 5).toBool = true := by decide
 example (c : Code) (h : jordanWignerCode 3 = .ok c) : ValidOn c [1, 0, 1] :=
   jw_code_valid 3 c h _ (by decide)
 example : (parityCode 4).toBool = true ∧ (parityCode 1).toBool = true := by decide
-example : (checksumCode 4 true).toBool = true ∧ (interleavedCode 6).toBool = true := by decide
+example : (checksumCode 4 true).toBool = true ∧ (interleavedCode 6).toBool = true ∧
+    (weightOneBinaryAddressingCode 2).toBool = true := by decide
 
 example : evalPoly (fun i => i == 1) (imul [[some 0], [some 1]] [[some 1], [none]]) = false := by decide
 
